@@ -1093,35 +1093,72 @@ theorem run_defined (p : Path) (ops : List Opd) (fail : Mask) (fs s : Shape)
       obtain ⟨rfl, rfl⟩ := hsh
       exact matInverse_defined a fail (hfit a (by simp)) hfail
 
-/-! ### KF-C01-1: `Matrix3 * Scalar` (recorded, not repaired) -/
+/-! ### `Matrix3 * Scalar` (KF-C01-1, repaired: leading shapes broadcast, the matrix's mask is OR-ed in) -/
 
-/-- the part that holds: a Matrix3 times anything that is not a Scalar is an ordinary product -/
-theorem matrix3Mul_exact_partial (r x : Opd) (s : Shape) (m : Mask)
-    (h : matrix3Mul false r x = some (s, m)) :
+theorem bto_at (m : Mask) (s out : Shape) (hf : m.Fits s) (hb : bcast s out = some out) (i : Index) :
+    (m.bto out).atB i = m.atB i := by
+  cases m with
+  | all b => rfl
+  | arr a =>
+    simp only [Mask.Fits] at hf
+    subst hf
+    simp only [Mask.bto, Mask.atB, Arr.bto, bidx_bidx_into _ _ hb]
+
+theorem bto_fits (m : Mask) (out : Shape) : (m.bto out).Fits out := by
+  cases m <;> simp [Mask.bto, Mask.Fits, Arr.bto]
+
+/-- a Matrix3 times anything is an ordinary product as far as masks and leading shapes go:
+    the result shape is the broadcast of the two leading shapes and the expanded mask is the
+    union of the two operand masks — also for a Scalar right operand, which is returned
+    "rotated" (itself), broadcast and re-masked -/
+theorem matrix3Mul_exact (sc : Bool) (r x : Opd) (s : Shape) (m : Mask)
+    (hr : r.mask.Fits r.shape) (hx : x.mask.Fits x.shape)
+    (h : matrix3Mul sc r x = some (s, m)) :
     bcast r.shape x.shape = some s ∧ ∀ i, Valid s i → m.atB i = (r.mask.atB i || x.mask.atB i) := by
-  simp only [matrix3Mul, Bool.false_eq_true, if_false] at h
-  obtain ⟨hb, _, e⟩ := mask_exact_ctorOr r x (.all false) s m false (by simp) h
-  exact ⟨hb, e⟩
+  cases sc with
+  | false =>
+    simp only [matrix3Mul, Bool.false_eq_true, if_false] at h
+    obtain ⟨hb, _, e⟩ := mask_exact_ctorOr r x (.all false) s m false (by simp) h
+    exact ⟨hb, e⟩
+  | true =>
+    simp only [matrix3Mul, if_true, Option.bind_eq_some_iff] at h
+    obtain ⟨out, hb, h⟩ := h
+    obtain ⟨br, bx⟩ := bcast_absorb _ _ _ hb
+    have hxm : ∀ i, (if out = x.shape then x.mask else x.mask.bto out).atB i = x.mask.atB i := by
+      intro i
+      by_cases e : out = x.shape
+      · simp [e]
+      · simp only [e, if_false]; exact bto_at _ _ _ hx bx i
+    by_cases hany : r.mask.any = true
+    · simp only [hany, if_true, Option.map_eq_some_iff, Prod.mk.injEq] at h
+      obtain ⟨m', hm, rfl, rfl⟩ := h
+      refine ⟨hb, fun i hv => ?_⟩
+      rw [remaskOr_at _ _ _ _ hm i (vb_self hv), hxm, bto_at _ _ _ hr br, Bool.or_comm]
+    · simp only [hany, Bool.false_eq_true, if_false, Option.some.injEq, Prod.mk.injEq] at h
+      obtain ⟨rfl, rfl⟩ := h
+      refine ⟨hb, fun i hv => ?_⟩
+      simp only [Bool.not_eq_true] at hany
+      rw [hxm, anyF_false_at r.mask r.shape hr hany i (vb_of_valid br hv)]; simp
 
--- FULL (what C01 demands of a "matrix product"):
---   matrix3Mul sc r x = some (s, m) → bcast r.shape x.shape = some s ∧
---   ∀ i, Valid s i → m.atB i = (r.mask.atB i || x.mask.atB i)
-/-- the faithful model violates it for a Scalar right operand: a fully masked shape-() rotation
-    times an unmasked Scalar of shape (2,) is unmasked (replay: `Matrix3(np.eye(3), True) *
-    Scalar([1.,2.])`), and the shape of the matrix is ignored as well -/
-theorem matrix3Mul_scalar_counterexample :
-    ¬ (∀ (r x : Opd) (s : Shape) (m : Mask), matrix3Mul true r x = some (s, m) →
-        ∀ i, Valid s i → m.atB i = (r.mask.atB i || x.mask.atB i)) := by
-  intro h
-  have := h ⟨[], .all true⟩ ⟨[2], .all false⟩ [2] (.all false) rfl [0] (by decide)
-  simp [Mask.atB] at this
+/-- compatible leading shapes never raise -/
+theorem matrix3Mul_scalar_defined (r x : Opd) (out : Shape) (hx : x.mask.Fits x.shape)
+    (hb : bcast r.shape x.shape = some out) : ∃ m, matrix3Mul true r x = some (out, m) := by
+  simp only [matrix3Mul, if_true, hb, Option.bind_some]
+  by_cases hany : r.mask.any = true
+  · have fx : (if out = x.shape then x.mask else x.mask.bto out).Fits out := by
+      by_cases e : out = x.shape
+      · simp only [e, if_true]; exact hx
+      · simp only [e, if_false]; exact bto_fits _ _
+    obtain ⟨m, hm⟩ := remaskOr_defined _ (r.mask.bto out) out fx (bto_fits _ _)
+    exact ⟨m, by simp [hany, hm]⟩
+  · exact ⟨if out = x.shape then x.mask else x.mask.bto out, by simp [hany]⟩
 
-theorem matrix3Mul_scalar_shape_counterexample :
-    ¬ (∀ (r x : Opd) (s : Shape) (m : Mask), matrix3Mul true r x = some (s, m) →
-        bcast r.shape x.shape = some s) := by
-  intro h
-  have := h ⟨[3], .all false⟩ ⟨[], .all false⟩ [] (.all false) rfl
-  revert this; decide
+/-- the former counterexamples of KF-C01-1 are now instances of the theorem: a fully masked
+    shape-() rotation times an unmasked Scalar of shape (2,) is masked, and a (3,) rotation times
+    a shape-() Scalar has shape (3,) -/
+example : ((matrix3Mul true ⟨[], .all true⟩ ⟨[2], .all false⟩).map fun r => (r.1, (indices r.1).map r.2.atB))
+    = some ([2], [true, true]) := by decide
+example : ((matrix3Mul true ⟨[3], .all false⟩ ⟨[], .all false⟩).map fun r => r.1) = some [3] := by decide
 
 /-! ### non-vacuity: concrete instances -/
 
